@@ -65,6 +65,7 @@ def closure_cached(f, faults=False):
     snap.hang_frames = sorted(d.hang_frames)
     snap.assumed_dead = getattr(d, 'assumed_dead', False)
     snap.extra = getattr(d, 'extra', {})
+    snap.flag_invariant_used = getattr(d, 'flag_invariant_used', False)
     snap.classes_seen = set(d.classes_seen)
     snap.phase = phase_rule(f) if not faults else []
     snap.ustar = ustar
